@@ -40,7 +40,7 @@ let () =
           | (seq, path) :: rest ->
               let b = read_file path in
               if not (header_ok b) then choose rest else
-              (match scan_footer_repaired_bytes (n_of_int 4096) b with
+              (match scan_footer_json_bytes (n_of_int 4096) b with
                | (N0, pos) -> Some (seq, int_of_n pos)
                | _ -> choose rest) in
         let model = choose fl in
